@@ -312,6 +312,8 @@ def lcode_program(jinja2, cls, templates, autoescape):
             da, cnt, ta = L.normal_form(a, True)
         except L.NotErasable as e:
             return "not-erasable", f"{name}: {e}", total
+        except SyntaxError as e:
+            return "not-erasable", f"{name}: generated code is not Python: {e.msg}", total
         for k, v in cnt.items():
             total[k] = total.get(k, 0) + v
         if lifted:
@@ -333,22 +335,27 @@ def diff_key(cls, label):
 def run_programs(ctx, res, jinja2, runner, boost):
     rng = ctx.rng("programs")
     pools = expr_pools(ctx, rng)
-    n_pg = ctx.pick(260, 1800) * boost
-    n_tg = ctx.pick(60, 300) * boost
-    n_ex = ctx.pick(80, 500) * boost
+    n_pg = ctx.pick(200, 1800) * boost
+    n_tg = ctx.pick(40, 300) * boost
+    n_ex = ctx.pick(60, 500) * boost
     stats = {"programs": 0, "renders": 0, "lcode_templates_ok": 0, "lcode_syntax_rejected": 0, "base_ok": 0, "base_err": {},
              "features": {}, "classes": {}, "erased": {}, "e2e_differences": 0, "lcode_differences": 0}
     distinct = set()
     samples = []
 
     def one(templates, main, spec, feats, classes, ae, modes):
-        for cls in classes:
+        for ci, cls in enumerate(classes):
             stats["programs"] += 1
             stats["classes"][cls] = stats["classes"].get(cls, 0) + 1
-            # --- translation validation of the generated code
-            st, detail, counts = lcode_program(jinja2, cls, templates, ae)
-            for k, v in counts.items():
-                stats["erased"][k] = stats["erased"].get(k, 0) + v
+            # --- translation validation of the generated code (quick tier: under one of the program's classes)
+            if ctx.quick and ci > 0:
+                st, detail, counts = "skipped", None, {"(validated under the first class)": 1}
+            else:
+                st, detail, counts = lcode_program(jinja2, cls, templates, ae)
+                stats["lcode_programs"] = stats.get("lcode_programs", 0) + 1
+            if st != "skipped":
+                for k, v in counts.items():
+                    stats["erased"][k] = stats["erased"].get(k, 0) + v
             nontrivial = sum(v for k, v in counts.items() if k != "async def") > 0
             case = {"templates": templates, "main": main, "spec": spec, "cls": cls, "autoescape": ae}
             if st == "ok":
@@ -376,7 +383,8 @@ def run_programs(ctx, res, jinja2, runner, boost):
                 if not diffs:
                     # the tie between the two code generators broke on this program: search its neighbourhood for a failing input
                     found = False
-                    for k in range(40):
+                    stats["intensified"] = stats.get("intensified", 0) + 1
+                    for k in range(40 if stats["intensified"] <= 12 else 0):
                         spec2 = G.data_spec(ctx.rng("intensify", phash(templates, cls, ae), k))
                         base2, outs2, diffs2 = L.oracle(jinja2, runner, cls, templates, main, spec2, ae, L.MODES)
                         stats["renders"] += len(outs2)
